@@ -2,6 +2,7 @@
    Files are modelled as already loaded values (None = unreadable / not JSON: the loader raises, status 1).
    Entry-point wiring is re-read from the tree on every run (Gen/Entry.v). *)
 From CCT Require Import Prelude Hex Num Time Formats Json Auth Signing Cli.
+From CCT.Gen Require Pins.
 From CCT.Gen Require Params Entry.
 From CCT.proofs Require Import HexFacts SigFacts AuthFacts SchemaFacts FamilyFacts CliFacts.
 Open Scope N_scope.
@@ -53,6 +54,57 @@ Example C17_witness :
  ") = U"abc".
 Proof. vm_compute. repeat split. Qed.
 
+(* BEGIN SOURCE PINS -- written by harness/mkpins.py; the list is what Gen/Pins.v held for the tree the model was validated against *)
+(* the functions of the package this property depends on (call-graph closure of its entry points), each with the fingerprint of its
+   logic (AST without docstrings, annotations, messages, local names): the model and the correspondence runs were validated against
+   exactly these; a change of logic in any of them breaks this obligation and the check then searches for a failing input *)
+Theorem C17_source_pinned : CCT.Gen.Pins.pinned_C17 =
+  [(U"authentication._ascii", U"5f6fc6aad21f14d47c4f");
+   (U"authentication.verify_delegation", U"5dc5b9065823f0f50085");
+   (U"authentication.verify_gpg_signature", U"ccbe2bc800d02410d16b");
+   (U"authentication.verify_root", U"6692242951185dc7604b");
+   (U"authentication.verify_signable", U"1bd56f9b4f5e7bcd88d9");
+   (U"authentication.verify_signature", U"7e0a2d567df7e9f0cdd4");
+   (U"cli.build_parser", U"e548581383787799f08b");
+   (U"cli.cli", U"86f8869b253d8b7f7476");
+   (U"cli.cli_sign_artifacts", U"e5623e5eff2b90c6f506");
+   (U"cli.cli_verify_metadata", U"bac4c5e1045d42c3d9b9");
+   (U"common.MixinKey.from_hex", U"a6e4e81c0b16461490a5");
+   (U"common.MixinKey.to_hex", U"fcdaef7ed3d503ba84df");
+   (U"common.PrivateKey.from_bytes", U"2cb488fc935b61f65bba");
+   (U"common.PrivateKey.to_bytes", U"c9564ea6ce46886b972b");
+   (U"common.PublicKey.from_bytes", U"a439db0d070397bc2b47");
+   (U"common.PublicKey.to_bytes", U"1167c2299d20a5c711f2");
+   (U"common.canonserialize", U"64fc1dee1d7349d7a920");
+   (U"common.checkformat_any_signature", U"82ba0ed515a770fad8a9");
+   (U"common.checkformat_byteslike", U"1c9da61d15ff3a1a9f97");
+   (U"common.checkformat_delegating_metadata", U"b013c9fa5677f3b3f637");
+   (U"common.checkformat_delegation", U"25fc9c6692b07cdca131");
+   (U"common.checkformat_delegations", U"d6a7d445f5f827a1471c");
+   (U"common.checkformat_gpg_fingerprint", U"86e3bb7e4431fb481dc5");
+   (U"common.checkformat_gpg_signature", U"a3c5515ffb8c9f6183ba");
+   (U"common.checkformat_hex_key", U"625afdf8f56eb4c97143");
+   (U"common.checkformat_hex_string", U"eac17f8be3d488d4b8a0");
+   (U"common.checkformat_key", U"d3466826154e389f099e");
+   (U"common.checkformat_list_of_hex_keys", U"4c9121b74cf062a7e2fd");
+   (U"common.checkformat_natural_int", U"14f9984b8b7ef6014787");
+   (U"common.checkformat_signable", U"dbb8b00a3a3727e018da");
+   (U"common.checkformat_signature", U"d544854022da28dcc399");
+   (U"common.checkformat_string", U"a139d0a4113d71e93d9f");
+   (U"common.checkformat_utc_isoformat", U"6fed4a2332e7258f7147");
+   (U"common.is_gpg_signature", U"f236e9c50126a7909e84");
+   (U"common.is_hex_key", U"63c7822022cd24f926e2");
+   (U"common.is_hex_signature", U"433f44075f931ec629d6");
+   (U"common.is_hex_string", U"35e6d253e0c21ac09fca");
+   (U"common.is_signable", U"6932517519189d75eb93");
+   (U"common.is_signature", U"cc04b1fcfd687d0beea7");
+   (U"common.load_metadata_from_file", U"f65eb5087b9ad786f4ff");
+   (U"common.write_metadata_to_file", U"7e7340650f276f577b2b");
+   (U"signing.serialize_and_sign", U"b494a1c320877296ecf6");
+   (U"signing.sign_all_in_repodata", U"acae37496ef25356cf28")].
+Proof. reflexivity. Qed.
+(* END SOURCE PINS *)
+
 Print Assumptions C17_codes_frozen.
 Print Assumptions C17_verify_exit_zero_iff.
 Print Assumptions C17_status_zero_iff_success.
@@ -60,3 +112,4 @@ Print Assumptions C17_reject_codes.
 Print Assumptions C17_entry_points_faithful.
 Print Assumptions C17_sign_zero_only_if_signed.
 Print Assumptions C17_witness.
+Print Assumptions C17_source_pinned.
